@@ -3,6 +3,7 @@ package checks
 import (
 	"fmt"
 	"math/rand"
+	"sort"
 	"strings"
 
 	"verif/harness/core"
@@ -294,6 +295,37 @@ func runC05(c *core.Ctx) {
 			}
 		}
 	})
+	// the current date is an input like any other when it is given: the first instant of the calendar (the zero value
+	// of the time type) under a layout that shows fractions of a second - whatever replaced it would show
+	{
+		srv := pool.Servers[0]
+		layout := "2006/01/02 15:04:05.000000"
+		files := map[string]string{"food.yaml": "a/b:\n  x: 1\n", "log.yaml": "0001/01/01 00:00:00.000000:\n  a/b: 1\n2021/03/04 10:00:00.250000:\n  a/b: 2\n"}
+		srv.Write(files)
+		for _, cmd := range [][]string{{"stats"}, {"reg", "-e", "today"}, {"reg", "-b", "today"}, {"summary", "today"}, {"bal", "-b", "yesterday"}, {"print", "-b", "last7"}} {
+			for _, today := range []string{"0001/01/01 00:00:00.000000", "0001/01/01 00:00:00.000001"} {
+				args := append([]string{"--no-color", "-d", "food.yaml", "-l", "log.yaml", "--date-format", layout, "--today", today}, cmd...)
+				outcomes := map[string]int{}
+				for _, v := range srv.App(args, nil, 20) {
+					outcomes[fmt.Sprintf("exit=%d\nerr=%s\n%s", btoi(v.Exit != 0), strings.TrimSpace(v.ErrText()), v.Out)] += v.Count
+				}
+				for k := 0; k < 3; k++ {
+					v := run.Exec(c.HR, args, run.ExecOpts{Dir: srv.Dir})
+					outcomes[fmt.Sprintf("exit=%d\nerr=%s\n%s", btoi(v.Exit != 0), strings.TrimSpace(v.ErrText()), v.Out)]++
+				}
+				c.Eval(23)
+				c.Count("cases_with_the_first_instant_as_today", 1)
+				if len(outcomes) > 1 {
+					var ks []string
+					for k, cnt := range outcomes {
+						ks = append(ks, fmt.Sprintf("[%d runs] %s", cnt, clip(k, 500)))
+					}
+					sort.Strings(ks)
+					c.Violation(strings.Join(cmd[:min(2, len(cmd))], " ")+"|output-varies", fmt.Sprintf("%d different outcomes for identical inputs under --today %s: %s", len(outcomes), today, joinArgs(cmd)), caseDoc{Files: files, Args: args, Observed: ks})
+				}
+			}
+		}
+	}
 	// a report while another report - other files, other options - is alive in the same process
 	nestedReports(c, pool, c.N(200, 2500), nestedAnyShape)
 	// and requests served one after the other by one application value
